@@ -261,4 +261,227 @@ Proof.
     destruct Hr as [Hr|Hr]; [left; exact Hr | right]. simp. eapply in_del_nth_keep; eauto. congruence.
 Qed.
 
+(* how `subscriptions` can change in one step *)
+Lemma subs_step s l s' : tstep s l s' ->
+  (forall r e', lookup (subs s') r = Some e' -> exists e, lookup (subs s) r = Some e /\ e_ch e' = e_ch e) \/
+  (exists r0 e0, lookup (subs s) r0 = None /\ length (chans s') = S (length (chans s)) /\ lookup (subs s') r0 = Some e0 /\
+                 e_ch e0 = length (chans s) /\ forall r, r <> r0 -> lookup (subs s') r = lookup (subs s) r).
+Proof.
+  intros Hs.
+  assert (Hrm : forall r s1 o, rm_apply s r = (s1, o) ->
+                  forall r' e', lookup (subs s1) r' = Some e' -> exists e, lookup (subs s) r' = Some e /\ e_ch e' = e_ch e).
+  { intros r s1 o Hr r' e' He'. apply rm_apply_spec, rm_spec_tables in Hr. destruct Hr as (_ & _ & _ & _ & _ & _ & Eoth & Erm).
+    destruct (Nat.eq_dec r' r) as [->|Hne]; [|rewrite (Eoth _ Hne) in He'; eauto].
+    destruct o as [c|]; [destruct Erm as [En _]; congruence|]. destruct (lookup (subs s) r) as [e|]; [|congruence].
+    destruct Erm as (e2 & He2 & Hc2). rewrite He2 in He'. inversion He'; subst. eauto. }
+  destruct Hs; simp; try (left; intros r0 e' He'; eauto; fail); try (left; eapply Hrm; eassumption).
+  - (* occupied *) left. intros r0 e' He'. destruct (Nat.eq_dec r0 (a_rule a)) as [->|Hne].
+    + rewrite lookup_put_same in He'. inversion He'; subst. eauto.
+    + rewrite lookup_put_other in He' by assumption. eauto.
+  - (* vacant *) right. exists (a_rule a). eexists. repeat split.
+    + assumption.
+    + rewrite app_length. cbn. lia.
+    + apply lookup_put_same.
+    + reflexivity.
+    + intros r Hne. now apply lookup_put_other.
+Qed.
+
+Lemma g_entry_step s l s' : tstep s l s' -> Inv s -> forall r e, lookup (subs s') r = Some e -> 2 <= e_ch e < length (chans s').
+Proof.
+  intros Hs I r e He. pose proof (len_mono _ _ _ Hs) as Hl. pose proof (inv_len _ _ I) as H2.
+  destruct (subs_step _ _ _ Hs) as [Hold|(r0 & e0 & Hn & Hlen & He0 & Hc0 & Hoth)].
+  - destruct (Hold _ _ He) as (e1 & He1 & Hc). pose proof (inv_entry _ _ I _ _ He1). lia.
+  - destruct (Nat.eq_dec r r0) as [->|Hne].
+    + rewrite He0 in He. inversion He; subst. lia.
+    + rewrite (Hoth _ Hne) in He. pose proof (inv_entry _ _ I _ _ He). lia.
+Qed.
+
+Lemma g_entry_inj_step s l s' : tstep s l s' -> Inv s ->
+  forall r r' e e', lookup (subs s') r = Some e -> lookup (subs s') r' = Some e' -> e_ch e = e_ch e' -> r = r'.
+Proof.
+  intros Hs I r r' e e' He He' Hc.
+  destruct (subs_step _ _ _ Hs) as [Hold|(r0 & e0 & Hn & Hlen & He0 & Hc0 & Hoth)].
+  - destruct (Hold _ _ He) as (e1 & He1 & Hc1). destruct (Hold _ _ He') as (e2 & He2 & Hc2).
+    eapply inv_entry_inj; try eassumption. congruence.
+  - destruct (Nat.eq_dec r r0) as [->|Hne], (Nat.eq_dec r' r0) as [->|Hne']; try reflexivity.
+    + rewrite He0 in He. inversion He; subst. rewrite (Hoth _ Hne') in He'. pose proof (inv_entry _ _ I _ _ He'). lia.
+    + rewrite He0 in He'. inversion He'; subst. rewrite (Hoth _ Hne) in He. pose proof (inv_entry _ _ I _ _ He). lia.
+    + rewrite (Hoth _ Hne) in He. rewrite (Hoth _ Hne') in He'. eapply inv_entry_inj; eassumption.
+Qed.
+
+(* who can come to hold `subscriptions` in one step *)
+Lemma holders_step s l s' : tstep s l s' -> Inv s ->
+  ((forall sid r c, a2 s' sid r c -> a2 s sid r c) /\ (forall r c, r1 s' r c -> r1 s r c)) \/
+  (subs_busy s = false /\ (exists sid0, forall sid r c, a2 s' sid r c -> sid = sid0) /\ (forall r c, ~ r1 s' r c)) \/
+  (subs_busy s = false /\ (forall sid r c, ~ a2 s' sid r c)).
+Proof.
+  intros Hs I.
+  assert (Hput : forall s1 sid st', drops s1 = drops s -> tasks s1 = tasks s -> streams s1 = put (streams s) sid st' ->
+                   lookup (drops s) sid = None -> forall r c, r1 s1 r c -> r1 s r c).
+  { intros s1 sid st' Ed Et Es Hnd r c Hr. refine (proj1 (r1_agree s s1 r c Ed Et _) Hr). intros sid' pc Hd. rewrite Es.
+    apply lookup_put_other. intros ->. congruence. }
+  assert (Hdel : forall s1 sid, drops s1 = drops s -> tasks s1 = tasks s -> streams s1 = del (streams s) sid ->
+                   lookup (drops s) sid = None -> forall r c, r1 s1 r c -> r1 s r c).
+  { intros s1 sid Ed Et Es Hnd r c Hr. refine (proj1 (r1_agree s s1 r c Ed Et _) Hr). intros sid' pc Hd. rewrite Es.
+    apply lookup_del_other. intros ->. congruence. }
+  destruct Hs; simp; try (left; split; intros; assumption).
+  - (* add start *) left. split; [|intros; assumption]. intros sid' r' c'. eapply a2_put_other; [reflexivity|]. intros c0. discriminate.
+  - left. split; [|intros; assumption]. intros sid' r' c' Ha. eapply a2_del in Ha; [apply Ha | reflexivity].
+  - left. split; [|intros; assumption]. intros sid' r' c'. eapply a2_put_other; [reflexivity|]. intros c0. discriminate.
+  - (* occupied *) left. split.
+    + intros sid' r' c' Ha. eapply a2_del in Ha; [apply Ha | reflexivity].
+    + intros r' c'. eapply (Hput _ sid); try reflexivity. apply live_no_drop; [assumption | eapply inv_ids; eassumption].
+  - (* vacant *) right. left. split; [assumption|]. split.
+    + exists sid. intros sid' r' c' (a' & Ha' & _ & Hpc'). simp. destruct (Nat.eq_dec sid' sid) as [|Hne]; [assumption|].
+      rewrite lookup_put_other in Ha' by assumption. exfalso. eapply (not_busy_a2 s sid'); [eassumption | exists a'; eauto].
+    + intros r' c' Hr. eapply (not_busy_r1 s); [eassumption | exact Hr].
+  - (* add sender *) left. split.
+    + intros sid' r' c' Ha. eapply a2_del in Ha; [apply Ha | reflexivity].
+    + intros r' c'. eapply (Hput _ sid); try reflexivity. apply live_no_drop; [assumption | eapply inv_ids; eassumption].
+  - (* unfiltered *) left. split; [intros; assumption|]. intros r' c'. eapply (Hput _ sid); try reflexivity.
+    unfold fresh in H. apply live_no_drop; [assumption|]. destruct (lookup (streams s) sid); [discriminate | reflexivity].
+  - (* poll *) destruct H as [Hl Hd]. left. split; [intros; assumption|]. intros r' c'. eapply (Hput _ sid); try reflexivity; eassumption.
+  - (* drop rule *) destruct H as [Hl Hd]. left. split; [intros; assumption|]. intros r' c' [(sid' & st' & Hd' & Hs' & Hr')|Hr].
+    + left. simp. exists sid', st'. repeat split; try assumption. destruct (Nat.eq_dec sid' sid) as [->|Hne]; [now rewrite lookup_del_same in Hs'|].
+      now rewrite lookup_del_other in Hs'.
+    + right. simp. now apply in_app_r0 in Hr.
+  - destruct H as [Hl Hd]. left. split; [intros; assumption|]. intros r' c'. eapply (Hdel _ sid); try reflexivity; eassumption.
+  - (* clone *) destruct H as [Hl Hd]. left. split; [intros; assumption|]. intros r' c'. eapply (Hput _ sid2); try reflexivity.
+    unfold fresh in H0. apply live_no_drop; [assumption|]. destruct (lookup (streams s) sid2); [discriminate | reflexivity].
+  - (* async drop starts *) destruct H as [Hl Hd]. left. split; [intros; assumption|]. intros r' c' [(sid' & st' & Hd' & Hs' & Hr')|Hr]; [left | now right].
+    simp. destruct (Nat.eq_dec sid' sid) as [->|Hne]; [rewrite lookup_put_same in Hd'; discriminate|].
+    rewrite lookup_put_other in Hd' by assumption. exists sid', st'. tauto.
+  - destruct H as [Hl Hd]. left. split; [intros; assumption|]. intros r' c'. eapply (Hdel _ sid); try reflexivity; eassumption.
+  - (* async drop, subs, done *) rm_tables. left. split.
+    + intros sid' r' c'. apply a2_ext. simp. assumption.
+    + intros r' c' [(sid' & st' & Hd' & Hs' & Hr')|Hr]; simp.
+      * left. rewrite Edrp in Hd'. rewrite Estr in Hs'. destruct (Nat.eq_dec sid' sid) as [->|Hne]; [now rewrite lookup_del_same in Hd'|].
+        rewrite lookup_del_other in Hd' by assumption. rewrite lookup_del_other in Hs' by assumption. exists sid', st'. tauto.
+      * right. now rewrite Etsk in Hr.
+  - (* async drop, subs, wait *) rm_tables. right. right. split; [assumption|]. intros sid' r' c' Ha. apply (not_busy_a2 s sid' r' c'); [assumption|].
+    eapply a2_ext; [|exact Ha]. simp. assumption.
+  - (* async drop, sender *) left. split; [intros; assumption|]. intros r' c' [(sid' & st' & Hd' & Hs' & Hr')|Hr]; [left | now right]. simp.
+    destruct (Nat.eq_dec sid' sid) as [->|Hne]; [now rewrite lookup_del_same in Hd'|]. rewrite lookup_del_other in Hd' by assumption. rewrite lookup_del_other in Hs' by assumption.
+    exists sid', st'. tauto.
+  - (* task, subs, done *) rm_tables. left. split.
+    + intros sid' r' c'. apply a2_ext. simp. assumption.
+    + intros r' c' [(sid' & st' & Hd' & Hs' & Hr')|Hr]; simp.
+      * left. rewrite Edrp in Hd'. rewrite Estr in Hs'. exists sid', st'. tauto.
+      * right. eapply in_del_nth; eassumption.
+  - (* task, subs, wait *) rm_tables. right. right. split; [assumption|]. intros sid' r' c' Ha. apply (not_busy_a2 s sid' r' c'); [assumption|].
+    eapply a2_ext; [|exact Ha]. simp. assumption.
+  - (* task, sender *) left. split; [intros; assumption|]. intros r' c' [(sid' & st' & Hd' & Hs' & Hr')|Hr]; [left | right]; simp.
+    + exists sid', st'. tauto.
+    + eapply in_del_nth; eassumption.
+Qed.
+
+Lemma g_excl_step s l s' : tstep s l s' -> Inv s -> forall sid r c r' c', a2 s' sid r c -> r1 s' r' c' -> False.
+Proof.
+  intros Hs I sid r c r' c' Ha Hr. destruct (holders_step _ _ _ Hs I) as [[H1 H2]|[(_ & _ & Hn)|(_ & Hn)]].
+  - eapply inv_excl; eauto.
+  - eapply Hn; eassumption.
+  - eapply Hn; eassumption.
+Qed.
+
+Lemma g_a2_uniq_step s l s' : tstep s l s' -> Inv s -> forall sid r c sid' r' c', a2 s' sid r c -> a2 s' sid' r' c' -> sid = sid'.
+Proof.
+  intros Hs I sid r c sid' r' c' Ha Ha'. destruct (holders_step _ _ _ Hs I) as [[H1 H2]|[(_ & (sid0 & H0) & _)|(_ & Hn)]].
+  - eapply inv_a2_uniq; eauto.
+  - rewrite (H0 _ _ _ Ha), (H0 _ _ _ Ha'). reflexivity.
+  - destruct (Hn _ _ _ Ha).
+Qed.
+
+Lemma fresh_spec s sid : fresh s sid = true -> lookup (streams s) sid = None /\ lookup (adds s) sid = None /\ lookup (dead s) sid = None.
+Proof. unfold fresh. destruct (lookup (streams s) sid), (lookup (adds s) sid), (lookup (dead s) sid); try discriminate. tauto. Qed.
+
+Lemma g_drops_step s l s' : tstep s l s' -> Inv s -> forall sid pc, lookup (drops s') sid = Some pc ->
+  exists st r, lookup (streams s') sid = Some st /\ s_rule st = Some r.
+Proof.
+  intros Hs I sid0 pc Hd. pose proof (inv_drops _ _ I) as Hold.
+  assert (Hput : forall sid st', lookup (drops s) sid0 = Some pc ->
+                   (sid = sid0 -> forall st, lookup (streams s) sid = Some st -> s_rule st' = s_rule st) ->
+                   (lookup (streams s) sid = None -> sid <> sid0) ->
+                   exists st r, lookup (put (streams s) sid st') sid0 = Some st /\ s_rule st = Some r).
+  { intros sid st' Hd0 Hsame Hnew. destruct (Hold _ _ Hd0) as (st & r & Hst & Hr). destruct (Nat.eq_dec sid0 sid) as [->|Hne].
+    - rewrite lookup_put_same. exists st', r. split; [reflexivity|]. rewrite (Hsame eq_refl _ Hst). assumption.
+    - rewrite lookup_put_other by assumption. eauto. }
+  assert (Hnone : forall sid, lookup (streams s) sid = None -> lookup (drops s) sid0 = Some pc -> sid <> sid0).
+  { intros sid Hn Hd0 ->. destruct (Hold _ _ Hd0) as (st & r & Hst & _). congruence. }
+  destruct Hs; simp; try (exact (Hold _ _ Hd)).
+  - (* occupied *) apply Hput; [assumption | |].
+    + intros -> st Hst. pose proof (inv_ids _ _ I _ _ H). congruence.
+    + intros Hn. now apply Hnone.
+  - (* add sender *) apply Hput; [assumption | |].
+    + intros -> st Hst. pose proof (inv_ids _ _ I _ _ H). congruence.
+    + intros Hn. now apply Hnone.
+  - (* unfiltered *) apply fresh_spec in H. destruct H as (Hn & _). apply Hput; [assumption | |].
+    + intros -> st Hst. congruence.
+    + intros _. now apply Hnone.
+  - (* poll *) destruct H as [Hl Hdn]. apply Hput; [assumption | |].
+    + intros -> st0 Hst. rewrite Hl in Hst. inversion Hst; subst. reflexivity.
+    + intros Hn. congruence.
+  - (* drop rule *) destruct H as [Hl Hdn]. destruct (Hold _ _ Hd) as (st0 & r0 & Hst & Hr). exists st0, r0. split; [|assumption].
+    rewrite lookup_del_other; [assumption | intros ->; congruence].
+  - destruct H as [Hl Hdn]. destruct (Hold _ _ Hd) as (st0 & r0 & Hst & Hr). exists st0, r0. split; [|assumption].
+    rewrite lookup_del_other; [assumption | intros ->; congruence].
+  - (* clone *) apply fresh_spec in H0. destruct H0 as (Hn & _). apply Hput; [assumption | |].
+    + intros -> st0 Hst. congruence.
+    + intros _. now apply Hnone.
+  - (* async drop start *) destruct H as [Hl Hdn]. destruct (Nat.eq_dec sid0 sid) as [->|Hne].
+    + eauto.
+    + rewrite lookup_put_other in Hd by assumption. exact (Hold _ _ Hd).
+  - destruct H as [Hl Hdn]. destruct (Hold _ _ Hd) as (st0 & r0 & Hst & Hr). exists st0, r0. split; [|assumption].
+    rewrite lookup_del_other; [assumption | intros ->; congruence].
+  - (* async drop, subs, done *) rm_tables. rewrite Edrp in Hd. rewrite Estr. destruct (Nat.eq_dec sid0 sid) as [->|Hne]; [now rewrite lookup_del_same in Hd|].
+    rewrite lookup_del_other in Hd by assumption. rewrite lookup_del_other by assumption. exact (Hold _ _ Hd).
+  - (* wait *) rm_tables. rewrite Edrp in Hd. rewrite Estr. destruct (Nat.eq_dec sid0 sid) as [->|Hne]; [eauto|].
+    rewrite lookup_put_other in Hd by assumption. exact (Hold _ _ Hd).
+  - (* sender *) destruct (Nat.eq_dec sid0 sid) as [->|Hne]; [now rewrite lookup_del_same in Hd|].
+    rewrite lookup_del_other in Hd by assumption. rewrite lookup_del_other by assumption. exact (Hold _ _ Hd).
+  - rm_tables. rewrite Edrp in Hd. rewrite Estr. exact (Hold _ _ Hd).
+  - rm_tables. rewrite Edrp in Hd. rewrite Estr. exact (Hold _ _ Hd).
+Qed.
+
+Lemma g_ids_step s l s' : tstep s l s' -> Inv s -> forall sid a, lookup (adds s') sid = Some a -> lookup (streams s') sid = None.
+Proof.
+  intros Hs I sid0 a0 Ha. pose proof (inv_ids _ _ I) as Hold.
+  destruct Hs; simp; try (exact (Hold _ _ Ha)).
+  - (* add start *) apply fresh_spec in H. destruct H as (Hn & _). destruct (Nat.eq_dec sid0 sid) as [->|Hne]; [assumption|].
+    rewrite lookup_put_other in Ha by assumption. exact (Hold _ _ Ha).
+  - destruct (Nat.eq_dec sid0 sid) as [->|Hne]; [now rewrite lookup_del_same in Ha|]. rewrite lookup_del_other in Ha by assumption. exact (Hold _ _ Ha).
+  - destruct (Nat.eq_dec sid0 sid) as [->|Hne]; [exact (Hold _ _ H)|]. rewrite lookup_put_other in Ha by assumption. exact (Hold _ _ Ha).
+  - (* occupied *) destruct (Nat.eq_dec sid0 sid) as [->|Hne]; [now rewrite lookup_del_same in Ha|]. rewrite lookup_del_other in Ha by assumption.
+    rewrite lookup_put_other by assumption. exact (Hold _ _ Ha).
+  - (* vacant *) destruct (Nat.eq_dec sid0 sid) as [->|Hne]; [exact (Hold _ _ H)|]. rewrite lookup_put_other in Ha by assumption. exact (Hold _ _ Ha).
+  - (* add sender *) destruct (Nat.eq_dec sid0 sid) as [->|Hne]; [now rewrite lookup_del_same in Ha|]. rewrite lookup_del_other in Ha by assumption.
+    rewrite lookup_put_other by assumption. exact (Hold _ _ Ha).
+  - (* unfiltered *) apply fresh_spec in H. destruct H as (_ & Hn & _). rewrite lookup_put_other; [exact (Hold _ _ Ha) | intros ->; congruence].
+  - (* poll *) destruct H as [Hl Hd]. rewrite lookup_put_other; [exact (Hold _ _ Ha)|]. intros ->. pose proof (Hold _ _ Ha). congruence.
+  - (* drop *) destruct (Nat.eq_dec sid0 sid) as [->|Hne]; [apply lookup_del_same | rewrite lookup_del_other by assumption; exact (Hold _ _ Ha)].
+  - destruct (Nat.eq_dec sid0 sid) as [->|Hne]; [apply lookup_del_same | rewrite lookup_del_other by assumption; exact (Hold _ _ Ha)].
+  - (* clone *) apply fresh_spec in H0. destruct H0 as (_ & Hn & _). rewrite lookup_put_other; [exact (Hold _ _ Ha) | intros ->; congruence].
+  - destruct (Nat.eq_dec sid0 sid) as [->|Hne]; [apply lookup_del_same | rewrite lookup_del_other by assumption; exact (Hold _ _ Ha)].
+  - rm_tables. rewrite Eadd in Ha. rewrite Estr. destruct (Nat.eq_dec sid0 sid) as [->|Hne]; [apply lookup_del_same | rewrite lookup_del_other by assumption; exact (Hold _ _ Ha)].
+  - rm_tables. rewrite Eadd in Ha. rewrite Estr. exact (Hold _ _ Ha).
+  - destruct (Nat.eq_dec sid0 sid) as [->|Hne]; [apply lookup_del_same | rewrite lookup_del_other by assumption; exact (Hold _ _ Ha)].
+  - rm_tables. rewrite Eadd in Ha. rewrite Estr. exact (Hold _ _ Ha).
+  - rm_tables. rewrite Eadd in Ha. rewrite Estr. exact (Hold _ _ Ha).
+Qed.
+
+Theorem G1_step s l s' : tstep s l s' -> Inv s -> G1 s'.
+Proof.
+  intros Hs I. constructor.
+  - eapply g_len_step; eassumption.
+  - eapply g_keys_step; eassumption.
+  - eapply g_shape_step; eassumption.
+  - eapply g_inj_step; eassumption.
+  - eapply g_reg_step; eassumption.
+  - eapply g_entry_step; eassumption.
+  - eapply g_entry_inj_step; eassumption.
+  - eapply g_excl_step; eassumption.
+  - eapply g_a2_uniq_step; eassumption.
+  - eapply g_drops_step; eassumption.
+  - eapply g_ids_step; eassumption.
+Qed.
+
 End G1.
